@@ -345,14 +345,14 @@ theorem ntMono_main (env : Env) (pp : Bool) (fuel : Nat) : NtMono (nextTokenMain
       obtain ⟨cx, r⟩ := lp
       have hpm := layoutParse_pos_mono env ls ctx1 fuel cx r hlp
       simp only at h
-      have hno : ∀ (c0 : Ctx), c0.span = ctx1.span → c0.pos = cx.pos →
+      have hno : ∀ (c0 : Ctx), c0.span = ctx1.span → c0.pos = ctx1.pos →
           noToken env pp c0 = (ctx', Outcome.ok tk) → ctx'.span = ctx.span ∧ ctx.pos.pos ≤ ctx'.pos.pos := by
         intro c0 hs0 hp0 hn
         have := noToken_ctx env pp c0
         rw [hn] at this
         simp only at this
         rw [this, hs0, hp0]
-        exact ⟨hm.1, Nat.le_trans hm.2 hpm⟩
+        exact ⟨hm.1, hm.2⟩
       split at h
       · split at h
         · split at h
@@ -360,9 +360,9 @@ theorem ntMono_main (env : Env) (pp : Bool) (fuel : Nat) : NtMono (nextTokenMain
             simp only at h1 h2
             rw [h1]
             exact ⟨hm.1, Nat.le_trans hm.2 (Nat.le_trans hpm h2)⟩
-          · exact hno { cx with state := ctx1.state, span := ctx1.span } rfl rfl h
-        · exact hno { cx with state := ctx1.state, span := ctx1.span } rfl rfl h
-      · exact hno { cx with state := ctx1.state, span := ctx1.span } rfl rfl h
+          · exact hno { cx with state := ctx1.state, span := ctx1.span, pos := ctx1.pos } rfl rfl h
+        · exact hno { cx with state := ctx1.state, span := ctx1.span, pos := ctx1.pos } rfl rfl h
+      · exact hno { cx with state := ctx1.state, span := ctx1.span, pos := ctx1.pos } rfl rfl h
       · injection h with _ h2; simp at h2
       · injection h with _ h2; simp at h2
 
